@@ -662,6 +662,12 @@ fn drive_sub(r: &mut Rng, n: usize, log: &mut Log) {
         if r.chance(1, 3) { v = mutate(r, v); }
         if r.chance(1, 10) { v = (0..r.below(10)).map(|_| (r.next() & 0xff) as u8).collect(); }
         ev_sub(log, kind, &v);
+        // a neighbour of the text just tried, straight after it (see replay: neighbours of an accepted subtag)
+        if r.chance(1, 3) {
+            let mut nb = v.clone();
+            match r.below(5) { 0 => nb.push(b' '), 1 => nb.push(0), 2 => nb.insert(0, b' '), 3 => nb.extend_from_slice(&[0, 0, 0]), _ => nb.push(b'-') }
+            ev_sub(log, kind, &nb);
+        }
     }
 }
 
